@@ -128,3 +128,23 @@ pub proof fn lemma_idom_stride_diff(st: u64, a: int, b: int)
 {
     if st > 0 { lemma_divides_add(st as int, a, b); lemma_divides_add(st as int, b, a); }
 }
+
+/// signed / unsigned reading of every well-formed value of width w (quantified form of lemma_sval)
+pub proof fn lemma_idom_sval_all(w: nat)
+    requires 1 <= w
+    ensures forall|v: Bitvector| v.wf() && v.w@ == w ==> (
+                smin(w) <= #[trigger] v.s() <= smax(w)
+                && (v.s() >= 0) == (v.u@ < p2((w - 1) as nat))
+                && (v.u@ < p2((w - 1) as nat) ==> v.s() == v.u@)
+                && (v.u@ >= p2((w - 1) as nat) ==> v.s() == v.u@ - p2(w))),
+            p2(w) == 2 * p2((w - 1) as nat), p2((w - 1) as nat) > 0,
+{
+    assert forall|v: Bitvector| v.wf() && v.w@ == w implies (
+                smin(w) <= #[trigger] v.s() <= smax(w)
+                && (v.s() >= 0) == (v.u@ < p2((w - 1) as nat))
+                && (v.u@ < p2((w - 1) as nat) ==> v.s() == v.u@)
+                && (v.u@ >= p2((w - 1) as nat) ==> v.s() == v.u@ - p2(w))) by {
+        lemma_sval(w, v.u@);
+    }
+    lemma_p2(w); lemma_p2((w - 1) as nat);
+}
